@@ -81,6 +81,7 @@ func fixRegions(regions []region) []region {
 		}
 		return false
 	})
+	verifTrace("RS", regions)
 	// Remove overlapping regions, preferring the ones that appear earlier.
 	var newRegions []region
 	lastEnd := 0
